@@ -69,11 +69,11 @@ class BuiltinMixin:
         if is_strlike(t):
             if v.const is not None:
                 return mk_const(len(v.const.v))
-            return SV(INT, z3.Length(v.z))
+            return SV(INT, self.seq_len(v.z))
         if isinstance(t, TList):
             if t.elem is None:
                 return mk_const(0)
-            return SV(INT, z3.Length(v.z))
+            return SV(INT, self.seq_len(v.z))
         if isinstance(t, TDict):
             return SV(INT, z3.Length(v.extra["keys"]))
         items = self.tuple_items(v)
